@@ -64,7 +64,12 @@ ASSUMPTIONS = [
     "documented defaults: sigma = 1.0 and epsilon = 1e-9 when the parameter dictionary lacks the key",
     "exotic but legal inputs used: weights as Python ints (counts, also > 2^53) / numpy.float64, outcome entries as "
     "numpy.int64 and as huge ints (2^61 - 1, 2^61: hash twins of 0 and 1), qubit indices as numpy.int64, bandwidth / "
-    "epsilon as int / numpy.float64 / list / tuple / ndarray, file names as pathlib.Path for the savers (the "
+    "epsilon as int / numpy.float64 / list / tuple / list of numpy.float64 / ndarray (float64: plain, read-only, a strided view of "
+    "a larger buffer; int64 for whole widths; NOT float32 widths, whose kernel is computed in single precision), the parameter "
+    "dictionary as dict / OrderedDict / "
+    "defaultdict / MappingProxyType (all accepted by the unchanged library: the functions only call .get on it and iterate the "
+    "widths; every answer is judged with the widths AS WRITTEN by the caller, so a function that edits the caller's array / "
+    "dictionary fails the value clause on the next call that re-uses it), file names as pathlib.Path for the savers (the "
     "loaders take str or an open file), an empty list for the plural saver; weights spanning 2^-40..2^40 "
     "(stored values and marginals are judged with RELATIVE tolerances 2e-9 / 1e-12), totals of 1 +- 2^-10..2^-36, "
     "totals just above the smallest normal double; dictionaries of 64-300 outcomes, registers up to width 70",
@@ -151,25 +156,41 @@ def _spec(items, normalize=True, vtype="float", ktype="py"):
     return d
 
 
+# how a caller may hand over several kernel widths: a list / tuple, a float64 array (the type `np.asarray(.., dtype=float)` returns
+# UNCHANGED, so that an in-place edit of the converted widths would edit the caller's array: plain "array", read-only "ro:f64", a
+# strided view "st:f64", both "ro:st:f64"), an int64 array (a converted copy; only for whole widths), a list of numpy float64
+# scalars (float32 widths are NOT generated: `1.0 / (2 * sigma)` stays single precision under NumPy-2 scalar promotion, so the value
+# agrees with the quadratic form to about 1e-8 only - the caller's own precision, outside the 1e-9 the oracle judges with); and the parameter dictionary itself as dict / OrderedDict / defaultdict / MappingProxyType
+_STYPES_VECTOR = ("list", "tuple", "array", "ro:f64", "st:f64", "ro:st:f64", "i64", "npfloats")
+_PTYPES = ("dict", "odict", "ddict", "proxy")
+
+
 def _mk_params(ps):
-    """parameter dictionary as a caller would write it.  ps: {"sigma": rat | [rat] | None, "stype": float | int |
-    list | tuple | array, "epsilon": rat | None}; None = the key is absent (documented default)"""
+    """parameter dictionary as a caller would write it.  ps: {"sigma": rat | [rat] | None, "stype": float | int | npfloat |
+    one of _STYPES_VECTOR, "epsilon": rat | None, "ptype": one of _PTYPES}; None = the key is absent (documented default)"""
     import numpy as np
-    par = {}
+    from . import c20_containers as _ct
+    par = []
     sg = ps.get("sigma")
     if sg is not None:
         if isinstance(sg, list):
-            vals = [float(unrat(x)) for x in sg]
+            fr = [unrat(x) for x in sg]
+            vals = [float(x) for x in fr]
             st = ps.get("stype") or "list"
-            par["sigma"] = tuple(vals) if st == "tuple" else np.array(vals) if st == "array" else vals
+            st = "f64" if st == "array" else st
+            if st == "i64" and any(x.denominator != 1 for x in fr):
+                st = "f64"
+            if st not in _STYPES_VECTOR + ("f64",):
+                st = "f64"
+            par.append(("sigma", _ct.mk_vec(np, vals, st)))
         else:
             f = unrat(sg)
-            par["sigma"] = (int(f) if (ps.get("stype") == "int" and f.denominator == 1)
-                            else np.float64(float(f)) if ps.get("stype") == "npfloat" else float(f))
+            par.append(("sigma", (int(f) if (ps.get("stype") == "int" and f.denominator == 1)
+                                  else np.float64(float(f)) if ps.get("stype") == "npfloat" else float(f))))
     if ps.get("epsilon") is not None:
         e = float(unrat(ps["epsilon"]))
-        par["epsilon"] = np.float64(e) if ps.get("etype") == "npfloat" else e
-    return par
+        par.append(("epsilon", np.float64(e) if ps.get("etype") == "npfloat" else e))
+    return _ct.mk_map(par, ps.get("ptype") or "dict")
 
 
 def _sigma_eps(ps):
@@ -182,7 +203,8 @@ def _sigma_eps(ps):
 
 def _dist_params(c):
     """the two parameter specs of a `dist` case (one for the MMD calls, one for the log-likelihood calls)"""
-    return ({"sigma": c.get("sigma"), "stype": c.get("stype")}, {"epsilon": c.get("eps"), "etype": c.get("etype")})
+    return ({"sigma": c.get("sigma"), "stype": c.get("stype"), "ptype": c.get("ptype")},
+            {"epsilon": c.get("eps"), "etype": c.get("etype"), "ptype": c.get("ptype")})
 
 
 def _guard(fn):
@@ -196,6 +218,8 @@ def _guard(fn):
         return "err:index"
     except TypeError:
         return "err:type"
+    except AttributeError:   # (e.g. a write attempted on a MappingProxyType / tuple handed over as an argument)
+        return "err:attribute"
 
 
 # ---------------------------------------------------------------- corpus / generator
@@ -254,6 +278,20 @@ def corpus():
          "steps": [["save", 0, 0], ["load", 0, "path"], ["poke"], ["load", 0, "fobj"], ["save", 0, 1],
                    ["load", 0, "path"], ["saves", 1, [0, 1, 2]], ["loads", 1, "path"], ["poke"], ["loads", 1, "fobj"],
                    ["saves", 1, [2, 2, 0]], ["loads", 1, "path"], ["save", 1, 2], ["load", 1, "path"]]},
+        # kernel widths / parameter dictionaries in the container types that ALIAS under a copy-avoiding conversion (a float64
+        # array, read-only, strided; inside an OrderedDict / MappingProxyType), each dictionary ONE object used by several
+        # calls in both directions and through evaluate_distribution_distance: every answer is judged with the widths as written
+        {"kind": "pool",
+         "specs": [{"items": [["000", "1/2"], ["111", "1/4"], ["010", "1/4"]]}, {"items": [["000", "1/8"], ["111", "1/2"], ["001", "3/8"]]}],
+         "params": [{"sigma": [4, "1/4", 1], "stype": "array", "ptype": "proxy"}, {"sigma": [3, 1, 2], "stype": "i64", "ptype": "odict"},
+                    {"epsilon": "1/100", "ptype": "ddict"}, {}],
+         "steps": [["mmd", 0, 1, 0, "eval"], ["mmd", 0, 1, 0, "direct"], ["mmd", 1, 0, 0, "direct"], ["mmd", 0, 1, 1, "direct"],
+                   ["mmd", 1, 0, 1, "eval"], ["nll", 0, 1, 2, "direct"], ["jsd", 1, 0, 2, "eval"], ["jsd", 0, 1, 2, "direct"],
+                   ["mmd", 0, 1, 0, "direct"], ["mmd", 0, 1, 1, "direct"]]},
+        {"kind": "dist", "p": [["01", "1/4"], ["10", "3/4"]], "q": [["01", "1/2"], ["11", "1/2"]], "sigma": [8, "1/2", 2],
+         "stype": "st:f64", "ptype": "proxy", "eps": "1/1000"},
+        {"kind": "dist", "p": [["01", "1/4"], ["10", "3/4"]], "q": [["00", "1/2"], ["11", "1/2"]], "sigma": [8, "1/2"],
+         "stype": "ro:f64", "eps": "1/1000"},
         {"kind": "construct", "items": [[[0, 1], "3/2"], [[1, 1], "-1/2"]], "normalize": True, "exact": True},
         {"kind": "construct", "items": [[[0, 1], 3], [[1, 1], 5]], "normalize": True, "exact": True, "vtype": "int",
          "ktype": "npint"},
@@ -605,14 +643,18 @@ def _rand_params(rng, which):
                   for _ in range(n)]
             if n >= 2 and rng.random() < 0.3:
                 sg[1] = sg[0]  # repeated equal widths
+            ps["stype"] = rng.choice(["list", "tuple", "array", "array", "ro:f64", "st:f64", "ro:st:f64", "i64", "npfloats"])
+            if ps["stype"] == "i64":     # whole widths, as an integer array
+                sg = [rat(Fraction(rng.randrange(1, 80)) * rng.choice([1, 1, 1, 1000])) for _ in range(n)]
             ps["sigma"] = sg
-            ps["stype"] = rng.choice(["list", "tuple", "array"])
     if which in ("epsilon", "both"):
         if rng.random() >= 0.15:
             ps["epsilon"] = rat(rng.choice([Fraction(1, 10 ** 9), Fraction(1, 10 ** 6), Fraction(1, 1000), Fraction(1, 100),
                                             Fraction(1, 8), Fraction(1, 2), Fraction(1, 10 ** 12), Fraction(1)]))
             if rng.random() < 0.25:
                 ps["etype"] = "npfloat"
+    if rng.random() < 0.35:   # the parameter dictionary is not a plain dict
+        ps["ptype"] = rng.choice(["odict", "ddict", "proxy", "proxy"])
     return ps
 
 
@@ -850,6 +892,8 @@ def generate(rng, tier):
             c["stype"] = ps["stype"]
         if ps.get("etype"):
             c["etype"] = ps["etype"]
+        if ps.get("ptype"):
+            c["ptype"] = ps["ptype"]
         cases.append(c)
     for _ in range(40 if big else 6):  # registers of width >= 32 (MMD judged by the oracle only, see ASSUMPTIONS)
         w = rng.choice([32, 33, 40, 48, 63, 64, 65, 70])
@@ -1970,13 +2014,14 @@ def _oracle_dist(c, out):
     union, t, m = _vectors(P, Q)
     bits = _is_bits(out["p"]) and _is_bits(out["q"])
     wide = False  # registers of width >= 32 are judged like any other since the repair b6e2a42
-    what = f"p={out['p']} q={out['q']} sigma={sigma} epsilon={eps}"
+    what = (f"p={out['p']} q={out['q']} sigma={sigma} epsilon={eps} (widths given as {c.get('stype') or 'python numbers'}, "
+            f"parameter dictionary as {c.get('ptype') or 'dict'}, ONE dictionary object for all calls)")
 
     def mmd_part():
         mm = [out["mmd_pq"], out["mmd_qp"], out["mmd_pp"], out.get("mmd_pq_again", out["mmd_pq"])]
         if any(isinstance(v, str) for v in mm):
             sig = "mmd-wide-register-overflow" if wide else "mmd-raises" if bits else "mmd-nonbinary-outcome"
-            return (sig, f"compute_mmd raised ({mm}) on distributions {out['p']} / {out['q']}")
+            return (sig, f"compute_mmd raised ({mm}) on distributions {out['p']} / {out['q']}; {what}")
         return (_judge_sym(mm[0], mm[1], "mmd-not-symmetric", "mmd, " + what, wide)
                 or _judge_mmd(mm[0], P, Q, sigma, "mmd(p,q), " + what)
                 or _judge_mmd(mm[1], Q, P, sigma, "mmd(q,p), " + what)
@@ -1986,7 +2031,7 @@ def _oracle_dist(c, out):
     def nll_part():
         nl = [out["nll_pq"], out["nll_qp"], out["jsd_pq"], out["jsd_qp"], out.get("nll_pq_again", out["nll_pq"])]
         if any(isinstance(v, str) for v in nl):
-            return ("nll-raises", f"log-likelihood / divergence raised: {nl}")
+            return ("nll-raises", f"log-likelihood / divergence raised: {nl}; {what}")
         return (_judge_nll(nl[0], t, m, eps, len(union), "p under q, " + what)
                 or _judge_nll(nl[1], m, t, eps, len(union), "q under p, " + what)
                 or _judge_sym(nl[2], nl[3], "jsd-not-symmetric", "jsd, " + what)
@@ -2068,7 +2113,16 @@ def distribution(cases, outs):
         for v in vs:
             if isinstance(v, str) and v.startswith("err:"):
                 errs[v] = errs.get(v, 0) + 1
+    ptypes, stypes = {}, {}
+    for c in cases:
+        for ps in (c.get("params", []) if c["kind"] == "pool" else [c] if c["kind"] == "dist" else []):
+            sg = ps.get("sigma")
+            st = ps.get("stype") or ("list" if isinstance(sg, list) else "float" if sg is not None else "absent")
+            stypes[st] = stypes.get(st, 0) + 1
+            ptypes[ps.get("ptype") or "dict"] = ptypes.get(ps.get("ptype") or "dict", 0) + 1
     return {"widths": {str(k): v for k, v in sorted(widths.items())}, "errors_hit": errs,
+            "kernel_width_container_types": dict(sorted(stypes.items())),
+            "parameter_dictionary_types": dict(sorted(ptypes.items())),
             "exact_compared": sum(1 for c in cases if c.get("exact")),
             "reordered_marginals": sum(1 for c in cases if c["kind"] == "subdist" and c["qubits"] != sorted(c["qubits"])),
             "history_steps": sum(len(c["steps"]) for c in cases if c["kind"] in ("hist", "pool", "files")),
